@@ -42,6 +42,64 @@ Theorem declared_error_roundtrip_partial hw te tbl d e vf :
 Proof. exact (roundtrip hw te tbl d e vf). Qed.
 Print Assumptions declared_error_roundtrip_partial.
 
+(* ---- goa's own finalisation of a row (body = attributes not sent in headers; for the
+        built-in error type the attributes an overridden body leaves out travel in
+        goa-attribute-* headers) carries every attribute of every value that fits the type *)
+Theorem finalized_row_carries_every_attribute n st k ty raw vf :
+  fits ty vf -> carried ty raw vf -> maps_all (finalize_row n st k ty raw) vf.
+Proof. exact (finalize_maps_all n st k ty raw vf). Qed.
+Print Assumptions finalized_row_carries_every_attribute.
+
+Theorem finalized_row_required_headers_set ty raw vf :
+  fits ty vf ->
+  forall h, In h (finalize_hdrs ty raw) -> hreq h = true -> lookup (hattr h) vf <> None.
+Proof. exact (finalize_required_set ty raw vf). Qed.
+Print Assumptions finalized_row_required_headers_set.
+
+(* the round trip for the row goa computes from the design: of well_mapped only the
+   conditions on the user-chosen header names remain *)
+Theorem declared_error_roundtrip_finalized_partial hw te tbl d e vf ty raw :
+  NoDup (map ename tbl) -> In d tbl ->
+  ehdrs d = finalize_hdrs ty raw -> ebody d = finalize_body ty raw ->
+  NoDup (map hname (ehdrs d)) -> ~ In goa_error_header (map hname (ehdrs d)) ->
+  fits ty vf -> carried ty raw vf ->
+  as_namer te e = Some (ename d) ->
+  typed_value te d e = Some (vf, ename d) ->
+  wire_safe_err hw d vf ->
+  exists evs, encode_error te tbl e = Some evs /\
+    let w := run_writer hw evs in
+    ws_status w = estatus d /\ ws_count w = 1 /\
+    lookup goa_error_header (ws_sent w) = Some (ename d) /\
+    match ekind_of d with
+    | KDefault => exists c, as_service e = Some c /\ decode_error te tbl w = CService c
+    | KCustom ty' => exists fs, decode_error te tbl w = CCustom (ename d) fs /\
+                                forall k, lookup k fs = lookup k vf
+    end.
+Proof. exact (roundtrip_finalized hw te tbl d e vf ty raw). Qed.
+Print Assumptions declared_error_roundtrip_finalized_partial.
+
+(* `carried` cannot be dropped: for a CUSTOM error type goa does not carry the attributes
+   that Body(Empty) / Body("a") leave out: they are lost on the way to the client *)
+Theorem custom_body_override_drops_attributes_refuted :
+  exists te ty raw vf,
+    fits ty vf /\ t_default ty = false /\ r_body raw = DEmpty /\
+    let d := finalize_row "conflict" 409 (KCustom "Conflict") ty raw in
+    exists evs fs, encode_error te [d] (ECustom "Conflict" vf) = Some evs /\
+      decode_error te [d] (run_writer (fun s => s) evs) = CCustom "conflict" fs /\
+      lookup "name" vf = Some "n1" /\ lookup "name" fs = None.
+Proof.
+  exists [("Conflict", NStatic "conflict")], (mketype false true [("name", true); ("code", false)]),
+         (mkraw [] DEmpty), [("name", "n1")].
+  split.
+  { split.
+    - intros k Hk. simpl in Hk. destruct (String.eqb k "name") eqn:E; [|exfalso; apply Hk; reflexivity].
+      apply String.eqb_eq in E. subst. left. reflexivity.
+    - intros n [H|[H|[]]]; injection H as <-; discriminate. }
+  split; [reflexivity|]. split; [reflexivity|].
+  cbv zeta. eexists. eexists. split; [reflexivity|]. vm_compute. repeat split.
+Qed.
+Print Assumptions custom_body_override_drops_attributes_refuted.
+
 (* --- the full statement (without the wire-safety hypothesis) is false of the faithful model;
        each loss class has its witness, and each witness is a recorded finding --- *)
 
@@ -324,6 +382,22 @@ Example roundtrip_body_attribute :
     ws_body (run_writer go_hdr_wire evs) = WVal "some ""text""" /\
     decode_error [] tbl (run_writer go_hdr_wire evs) = CService c.
 Proof. eexists. split; [reflexivity|]. split; vm_compute; reflexivity. Qed.
+
+(* finalisation computes the rows seen on real designs *)
+Example finalize_examples :
+  finalize_row "msg_only" 400 KDefault error_result (mkraw [] (DAttr "message")) =
+    mkdecl "msg_only" 400 KDefault
+      [mkh "name" "Goa-Attribute-Name" true; mkh "id" "Goa-Attribute-Id" true;
+       mkh "temporary" "Goa-Attribute-Temporary" true; mkh "timeout" "Goa-Attribute-Timeout" true;
+       mkh "fault" "Goa-Attribute-Fault" true] (BAttr "message") /\
+  finalize_row "db" 400 KDefault error_result (mkraw [("message", "X-Message")] DDefault) =
+    mkdecl "db" 400 KDefault [mkh "message" "X-Message" true]
+      (BObject ["name"; "id"; "temporary"; "timeout"; "fault"]) /\
+  finalize_body (mketype false false [("", true)]) (mkraw [] DDefault) = BValue /\
+  carried error_result (mkraw [] (DAttr "message")) (core_fields (mkcore "n" "i" "m" false false false)).
+Proof.
+  repeat split; try (vm_compute; reflexivity); try discriminate.
+Qed.
 
 Example roundtrip_custom_with_header :
   let e := ECustom "Conflict" [("name", "n"); ("code", "7"); ("detail", "d e")] in
